@@ -103,7 +103,7 @@ def history_program(rng, counters):
             tr.append(["pickle", sorted(map(list, m2.dump())), sorted(map(str, m2.tasks))])
         except Exception as exc:
             tr.append(["pickle", "E:" + type(exc).__name__])
-    flagged = mgrmon.has_structural_cycle(runner.mgr)
+    flagged = mgrmon.shadow_structural_cycle(hg.shadow, runner)
     return [hg.world, ops], tr, digest(runs) + ":" + digest(signs), flagged, len(hg.shadow.defs) >= 3
 
 
@@ -226,6 +226,42 @@ def exotic_key_program(rng, counters):
     return [ops], tr, "", False, True
 
 
+def owner_reader_program(rng, counters):
+    """Assignments to members of nested containers whose dependants include tasks reading the WHOLE
+    container (dependency on the enclosing ref only) next to tasks reading the member: the start set of
+    such an assignment holds several refs, so any order sensitivity shows up as a hash-seed dependence."""
+    import xdeps
+    pool = ["k%d" % i for i in range(12)] + ["alpha", "beta", "q.x", "mq1", "z", "long_name_%d" % rng.randrange(100)]
+    keys = rng.sample(pool, 3)
+    tnames = rng.sample(["s", "p", "q", "w", "sum_%d" % rng.randrange(50), "out", "t%d" % rng.randrange(9)], 4)
+    m = xdeps.Manager()
+    fbox = C.FnBox("f")
+    d = {"d": {k: float(i + 1) for i, k in enumerate(keys)}, "lst": [1.0, 2.0, 3.0], "i": 1}
+    for t in tnames:
+        d[t] = 0.0
+    r = m.ref(d, "r")
+    f = m.ref(fbox, "f")
+    s_, p_, q_, w_ = tnames
+    defs = [(s_, lambda: f.tot(r["d"])), (p_, lambda: r["d"][keys[0]] * 10 + r[s_]), (q_, lambda: r[p_] + r[s_] - r["lst"][r["i"]]),
+            (w_, lambda: f.tot(r["lst"]) + r["lst"][0] * r[q_])]
+    rng.shuffle(defs)
+    tr = []
+    for name, mk in defs:
+        r[name] = mk()
+    for step in range(rng.randrange(3, 8)):
+        which = rng.random()
+        v = rng.choice([5.0, -1.0, 2.5, 0.5, 7.0])
+        if which < 0.5:
+            r["d"][rng.choice(keys)] = v
+        elif which < 0.8:
+            r["lst"][rng.randrange(3)] = v
+        else:
+            r["i"] = rng.randrange(3)
+        tr.append(sorted((k, canon(x)) for k, x in d.items() if not isinstance(x, (dict, list))))
+    tr.append(sorted(map(list, m.dump())))
+    return [keys, tnames], tr, "", False, True
+
+
 def run_shard(spec):
     rng = random.Random("C20:%s:corpus" % spec["seed"])      # identical corpus in every configuration
     mgrmon.install_run_events()
@@ -245,7 +281,8 @@ def run_shard(spec):
     if spec.get("replay"):
         n_hist, n_terms, n_fam = 60, 200, 1
     for kind, n, fn in (("history", n_hist, history_program), ("term", n_terms, term_program), ("family", n_fam, family_program),
-                        ("exotic-keys", max(20, n_hist // 4), exotic_key_program)):
+                        ("exotic-keys", max(20, n_hist // 4), exotic_key_program),
+                        ("owner-readers", max(40, n_hist // 2), owner_reader_program)):
         for i in range(n):
             sub = random.Random("C20:%s:%s:%d" % (spec["seed"], kind, i))     # per-program stream: robust to skips
             res = fn(sub, counters)
